@@ -311,7 +311,7 @@ func (w *world11) oracle(o obs11, store, cls string, touched int, prev []chanVie
 	}
 }
 
-func runHistory11(g *cv.Gen, t *Tables, res *hx.Result, st *stores, maxSteps int) string {
+func runHistory11(g *cv.Gen, t *Tables, res *hx.Result, st *stores, maxSteps, k int, big bool) string {
 	st.reset()
 	w := &world11{g: g, t: t, res: res, st: st, viewIx: map[string]int{}, caseNo: len(res.CaseIndex)}
 	np := 2 + g.R.Intn(3)
@@ -323,8 +323,16 @@ func runHistory11(g *cv.Gen, t *Tables, res *hx.Result, st *stores, maxSteps int
 	nparents := 0
 	for i := 0; i < nc; i++ {
 		n := 2 + g.R.Intn(2)
-		if g.R.Intn(12) == 0 {
-			n = 11
+		if g.R.Intn(14) == 0 {
+			n = 9 + g.R.Intn(3)
+		}
+		// participant counts at the width boundaries of the signature keys: the first channel of every
+		// fourth history has 9, 10 or 11 participants; with big, of every 50th history 99, 100 or 101
+		if i == 0 && k%4 == 1 {
+			n = 9 + (k/4)%3
+		}
+		if i == 0 && big && k%50 == 7 {
+			n = 99 + (k/50)%3
 		}
 		c := NewCtx(g, t, n, g.R.Intn(n), kinds[g.R.Intn(3)])
 		// peers: a non-empty selection of the pool (shared between channels), occasionally a repeat
@@ -477,7 +485,7 @@ func RunC11(seed int64, tier, out string) {
 		if t == nil {
 			t = NewTables()
 		}
-		cases = append(cases, runHistory11(g, t, res, st, maxSteps))
+		cases = append(cases, runHistory11(g, t, res, st, maxSteps, k, tier != "quick"))
 		if len(cases) >= perFile {
 			w.write(t, cases)
 			cases, t = nil, nil
